@@ -15,7 +15,10 @@ from ..sys_array import viol
 from .c14 import frames_spec
 
 N = 1 << 19                 # 2^19 float64 = 4 MiB: an unmapped region is really gone
-K = N // 2 + 5              # the cell that reads and writes touch; lies inside frames of every generator
+# the two cells that reads and writes touch: each lies in the overlap of two consecutive frames of g2 (so that a chunk
+# assembled from anything but the current contents shows) and inside frames of every other generator
+KS = (N // 4 + 5, N // 2 + 5)
+K = KS[1]
 V1 = -1.0
 
 GEN_PARAMS = {
@@ -51,7 +54,7 @@ class World:
         self.cstate = {c: 'N' for c in ctxs}      # 'N', 'E', 'X'
         self.gobj = {}
         self.cobj = {}
-        self.toggle = 0
+        self.toggle = [0, 0]
         self.frames = {g: frames_of(g) for g in gens}
         self._flags = {}
         self.first_finished = None
@@ -87,11 +90,11 @@ class World:
                 ops.append(('enter', c))
             elif st == 'E' and not inner_open:
                 ops.append(('exit', c))
-        ops += [('read',), ('write',)]
+        ops += [('read', 0), ('read', 1), ('write', 0), ('write', 1)]
         return ops
 
     def abstract(self):
-        return {'gens': {g: self.gstate[g] for g in self.gens}, 'ctxs': dict(self.cstate), 'toggle': self.toggle}
+        return {'gens': {g: self.gstate[g] for g in self.gens}, 'ctxs': dict(self.cstate), 'toggle': list(self.toggle)}
 
     # ------------------------------------------------------------------ one action on the real object
     def _user_starts(self, name):
@@ -156,7 +159,7 @@ class World:
                                     and np.array_equal(got, want)):
                                 nd = int(np.sum(got != want)) if getattr(got, 'shape', None) == want.shape else -1
                                 bad('chunk differs from the contents at the moment it was returned',
-                                    f'{g} frame {i} [{s}:{e}]: {nd} elements differ (cell {K} is {self.model[K]} in the array)')
+                                    f'{g} frame {i} [{s}:{e}]: {nd} elements differ (cells {KS} hold {[float(self.model[x]) for x in KS]} in the array)')
                         self.gstate[g] = i + 1
                         self.dirty[g] = False
                         label = 'chunk'
@@ -184,26 +187,30 @@ class World:
                 self._user_finishes(c)
                 self.cstate[c] = 'X'
             elif kind == 'read':
-                got = a[K]
-                if checking and not (np.asarray(got).shape == () and float(got) == float(self.model[K])):
-                    bad('element read differs from the contents', f'a[{K}] returned {got!r}, contents are {self.model[K]}')
-                label = f'read{self.toggle}'
+                c = act[1]
+                kk = KS[c]
+                got = a[kk]
+                if checking and not (np.asarray(got).shape == () and float(got) == float(self.model[kk])):
+                    bad('element read differs from the contents', f'a[{kk}] returned {got!r}, contents are {self.model[kk]}')
+                label = f'read{self.toggle[c]}'
             elif kind == 'write':
-                newv = V1 if self.toggle == 0 else float(K)
-                a[K] = newv
-                self.model[K] = newv
-                self.toggle ^= 1
+                c = act[1]
+                kk = KS[c]
+                newv = V1 if self.toggle[c] == 0 else float(kk)
+                a[kk] = newv
+                self.model[kk] = newv
+                self.toggle[c] ^= 1
                 for g in self.gens:
                     if isinstance(self.gstate[g], int):
                         self.dirty[g] = True
                 if checking:
                     with open(self.datafile, 'rb') as f:
-                        f.seek(K * 8)
+                        f.seek(kk * 8)
                         raw = struct.unpack('<d', f.read(8))[0]
-                    fresh = float(import_darr().Array(self.path)[K])
-                    live = float(a[K])
+                    fresh = float(import_darr().Array(self.path)[kk])
+                    live = float(a[kk])
                     if not (raw == newv and fresh == newv and live == newv):
-                        bad('write did not take effect', f'a[{K}] = {newv}: file holds {raw}, fresh handle {fresh}, live handle {live}')
+                        bad('write did not take effect', f'a[{kk}] = {newv}: file holds {raw}, fresh handle {fresh}, live handle {live}')
             else:
                 raise KeyError(kind)
         except Exception as e:  # noqa: BLE001
@@ -334,8 +341,8 @@ def run(tier):
         'outcomes_per_action': res.outcomes, 'coverage_flags_seen_in_executions': res.flags,
         'reproducibility_reruns': validated,
         'rule': (f'actors: generators {gens} with parameters {jdump({g: GEN_PARAMS[g] for g in gens})} on one Array of {N} float64 '
-                 f'(4 MiB) opened r+, contexts {ctxs} (nested, LIFO), element read and element write (toggling one cell that lies in '
-                 f'overlapping frames); actions start/advance/close/drop(del+gc) per generator, enter/exit per context, read, write; '
+                 f'(4 MiB) opened r+, contexts {ctxs} (nested, LIFO), reads and writes of two cells (each toggling, each inside the overlap of two '
+                 f'consecutive frames); actions start/advance/close/drop(del+gc) per generator, enter/exit per context, read, write; '
                  f'breadth-first search over ALL interleavings to the fixpoint of the state graph (state = actor positions + generic '
                  f'dump of the handle, of every generator frame and of the open descriptors/maps, computed inside the process); every '
                  f'transition is one real execution in its own forked process (history replayed, action performed, oracles evaluated); '
